@@ -30,6 +30,14 @@ def both_index_search(ctx, key, fn, search_pats, variant, current_field):
     ctx.ob(key + 'b current-index-searched %s' % fn, 'K1-must-pass', fn, 'the current table is searched on every path before the old ones',
            len(first) == 1 and b.find_path([0], {lp['head']}, removed=set(first) | core.error_exit_blocks(b)) is None, '')
     found, w = lib.loop_arm_must_call(b, lp, 'ReindexEntry', variant, inloop)
+    if not found:
+        # `for t in queue.iter().filter_map(ReindexEntry::as_index)`: the variant is selected by the iterator source; that is the
+        # same thing as long as the selector only looks at the variant and no positional adaptor trims the queue
+        sels, adaptors = lib.loop_source_selectors(b, lp)
+        trims = adaptors & {'take', 'skip', 'step_by', 'take_while', 'skip_while', 'nth', 'last', 'find', 'position', 'zip'}
+        if sels and all(lib.pure_variant_selector(x) for x in sels) and not trims:
+            found = True
+            w = lib.loop_body_must_call(b, lp, inloop)
     ctx.ob(key + 'c every-queued-table-searched %s' % fn, 'K2-loop-order', fn,
            'for every queued older table of the right kind the search is called unconditionally (no skip by progress, size or position)', found and w is None and bool(inloop),
            'arm not found' if not found else ('' if w is None else 'iteration path that skips the search: ' + lib.short_path(b, w)))
